@@ -368,6 +368,23 @@ def lookups_by_name(repo: Repo, run: Run) -> None:
                    (o.get("what", "") + " - a supplied table that gives the name to a different or a further id is not honoured")
                    if not o["ok"] else "", nontrivial=False)
     run.floor("R0", "name-based selection obligations taken over from C08", n, 1)
+    # the composite decoders (sampler, launch, page fault) pick the nested records of their window by the name the
+    # supplied table gives each id (C20/R2, R3): a record whose id the table does not list, or lists under another name,
+    # must not be decoded as one of them
+    from . import c20
+    probe = Run("C20", run.tier, run.repo_root)
+    try:
+        c20.check(repo, probe)
+    except AnalysisError:
+        pass
+    m = 0
+    for o in probe.obligations:
+        if o["rule"] in ("R2", "R3") and " record" in o["construct"]:
+            m += 1
+            run.ob("R0", o["module"], o["scope"], f"nested records found through the supplied table (C20/{o['rule']}): {o['construct']}",
+                   o["ok"], (o.get("what", "") + " - a record whose id the supplied table does not list under that name is then "
+                             "decoded as if it were") if not o["ok"] else "", nontrivial=False)
+    run.floor("R0", "name-based selection obligations taken over from C20", m, 3)
 
 
 def check(repo: Repo, run: Run) -> None:
